@@ -193,7 +193,7 @@ static void run_case(Ctx& c, uint64_t idx) {
         }
         if (r.chance(1, 12)) {      // authority comparison per host kind: same address spelled differently, one byte / one letter different, look-alikes of another kind
             static const char* const HG[][6] = {{"1.2.3.4", "1.2.3.5", "1.2.4.4", "2.2.3.4", "1.2.3.04", "1.2.3.4"}, {"[::1]", "[0:0:0:0:0:0:0:1]", "[::2]", "[1::1]", "[::0.0.0.1]", "[::1:0:1]"},
-                {"[1:2:3:4:5:6:7:8]", "[1:2:3:4:5:6:0.7.0.8]", "[1:2:3:4:5:6:7:9]", "[0001:2:3:4:5:6:7:8]", "[1:2:3:4:5:6:7:8]", "[2:2:3:4:5:6:7:8]"}, {"[v1.x]", "[V1.x]", "[v1.X]", "[v1.xy]", "[v2.x]", "[v1.x]"},
+                {"[1:2:3:4:5:6:7:8]", "[1:2:3:4:5:6:0.7.0.8]", "[1:2:3:4:5:6:7:9]", "[0001:2:3:4:5:6:7:8]", "[1:2:3:4:5:6:7:8]", "[2:2:3:4:5:6:7:8]"}, {"[v1.x]", "[V1.x]", "[v1.X]", "v1.x", "[v2.x]", "[v1.x]"},
                 {"h", "H", "h%41", "hA", "h.", "h"}, {"1.2.3.4", "[::1.2.3.4]", "[v4.1.2.3.4]", "1.2.3.4.", "1.2.3", "01.2.3.4"}};
             static const char* const UP[] = {"", "u@", "U@", "@", ":@", "u:p@"}; static const char* const PT[] = {"", ":", ":1", ":01", ":2", ":1"};
             static const char* const PA[] = {"", "/", "/a/b/c", "/a/b/d", "/a/b", "/a/b/", "/a/x/c", "//a"};
